@@ -34,8 +34,8 @@ var c12PatternSets = [][]string{
 	{"evil.com"},
 	{"EXAMPLE.com", "*.Example.Com"},
 	{"https://*.example.com", "http://example.com"}, // host patterns never contain a scheme: these match no host
-	{"[a-z.example.com"},           // malformed glob: can authorise nothing
-	{"evil.com", "[bad", "other*"}, // a malformed pattern after a well formed one
+	{"[a-z.example.com"},                            // malformed glob: can authorise nothing
+	{"evil.com", "[bad", "other*"},                  // a malformed pattern after a well formed one
 }
 
 func init() {
